@@ -332,7 +332,13 @@ def process_unit(unit, outdir, rlimit):
 def get_unit_result(unit, key, rlimit):
     d = os.path.join(CACHE, key)
     os.makedirs(d, exist_ok=True)
-    rp = os.path.join(d, unit + '.result.json')
+    rp = os.path.join(d, '%s.r%d.result.json' % (unit, rlimit))
+    if rlimit > 30 and os.path.exists(os.path.join(d, '%s.r30.result.json' % unit)):
+        # a unit fully verified within the smaller resource limit needs no second run under the larger one
+        r0 = json.load(open(os.path.join(d, '%s.r30.result.json' % unit)))
+        if r0.get('status') == 'ok':
+            r0['cached'] = True
+            return r0
     lock = open(os.path.join(d, unit + '.lock'), 'w')
     fcntl.flock(lock, fcntl.LOCK_EX)
     try:
